@@ -12,6 +12,8 @@ depend on the order in which the C code iterates its hash tables.
 -/
 namespace SSVerif.Fsg
 
+variable {z : Int}
+
 /-! ### list lemmas about `raiseFirst` and `find?` -/
 
 theorem find?_raiseFirst_same {p : Link → Bool} {lp : Int} (hp : ∀ l x, p { l with logp := x } = p l) :
@@ -134,17 +136,17 @@ theorem nullAdd_step (g : Fsg) (a c : Nat) (lp : Int) : Step g (nullAdd g a c lp
   ⟨nullAdd_dom g a c lp, nullAdd_lookupMono g a c lp⟩
 
 theorem innerFold_step {a : Nat} {lp1 : Int} : ∀ (tl2s : List Link) (s : PassSt),
-    Step s.g (tl2s.foldl (innerStep a lp1) s).g
+    Step s.g (tl2s.foldl (innerStep z a lp1) s).g
   | [], _ => Step.refl _
-  | t :: ts, s => (nullAdd_step s.g a t.dst (lp1 + t.logp)).trans (innerFold_step ts (innerStep a lp1 s t))
+  | t :: ts, s => (nullAdd_step s.g a t.dst (satAdd z lp1 t.logp)).trans (innerFold_step ts (innerStep z a lp1 s t))
 
-theorem outerStep_step (s : PassSt) (k : Key) : Step s.g (outerStep s k).g := by
+theorem outerStep_step (s : PassSt) (k : Key) : Step s.g (outerStep z s k).g := by
   unfold outerStep
   cases nullLookup s.g k.1 k.2 with
   | none => exact Step.refl _
   | some lp1 => exact innerFold_step _ _
 
-theorem outerFold_step : ∀ (ks : List Key) (s : PassSt), Step s.g (ks.foldl outerStep s).g
+theorem outerFold_step : ∀ (ks : List Key) (s : PassSt), Step s.g (ks.foldl (outerStep z) s).g
   | [], _ => Step.refl _
   | k :: ks, s => (outerStep_step s k).trans (outerFold_step ks _)
 
@@ -152,28 +154,38 @@ theorem outerFold_step : ∀ (ks : List Key) (s : PassSt), Step s.g (ks.foldl ou
 
 /-- relative to the grammar `cur` at the start of the pass: the pair of null links `a → b`,
 `b → c` of `cur` has been relaxed in `g'` -/
-def Done (cur : Fsg) (a b : Nat) (g' : Fsg) : Prop :=
+def Done (z : Int) (cur : Fsg) (a b : Nat) (g' : Fsg) : Prop :=
   ∀ v1, nullLookup cur a b = some v1 → ∀ l2 ∈ cur.links, l2.wid = none → l2.src = b → a ≠ l2.dst →
-    ∃ v, nullLookup g' a l2.dst = some v ∧ v1 + l2.logp ≤ v
+    ∃ v, nullLookup g' a l2.dst = some v ∧ satAdd z v1 l2.logp ≤ v
 
-theorem Done.mono {cur g' g'' : Fsg} {a b : Nat} (h : Done cur a b g') (m : LookupMono g' g'') : Done cur a b g'' := by
+theorem le_satAdd (z a b : Int) : a + b ≤ satAdd z a b := by unfold satAdd; split <;> omega
+
+theorem satAdd_ge (z a b : Int) : z ≤ satAdd z a b := by unfold satAdd; split <;> omega
+
+theorem satAdd_mono {z a b a' b' : Int} (ha : a ≤ a') (hb : b ≤ b') : satAdd z a b ≤ satAdd z a' b' := by
+  unfold satAdd; split <;> split <;> omega
+
+theorem satAdd_le0 {z a b : Int} (hz : z ≤ 0) (ha : a ≤ 0) (hb : b ≤ 0) : satAdd z a b ≤ 0 := by
+  unfold satAdd; split <;> omega
+
+theorem Done.mono {cur g' g'' : Fsg} {a b : Nat} (h : Done z cur a b g') (m : LookupMono g' g'') : Done z cur a b g'' := by
   intro v1 h1 l2 hl2 hw hs hne
   obtain ⟨v, e, le⟩ := h v1 h1 l2 hl2 hw hs hne
   obtain ⟨v', e', le'⟩ := m _ _ _ e
   exact ⟨v', e', Int.le_trans le le'⟩
 
 theorem innerFold_done {a : Nat} {lp1 : Int} : ∀ (tl2s : List Link) (s : PassSt),
-    ∀ t ∈ tl2s, a ≠ t.dst → ∃ v, nullLookup (tl2s.foldl (innerStep a lp1) s).g a t.dst = some v ∧ lp1 + t.logp ≤ v
+    ∀ t ∈ tl2s, a ≠ t.dst → ∃ v, nullLookup (tl2s.foldl (innerStep z a lp1) s).g a t.dst = some v ∧ satAdd z lp1 t.logp ≤ v
   | [], _, t, ht, _ => by cases ht
   | x :: xs, s, t, ht, hne => by
     rcases List.mem_cons.1 ht with rfl | ht
-    · obtain ⟨v, e, le⟩ := nullAdd_post s.g (lp1 + t.logp) hne
-      obtain ⟨v', e', le'⟩ := (innerFold_step (a := a) (lp1 := lp1) xs (innerStep a lp1 s t)).mono _ _ _ e
+    · obtain ⟨v, e, le⟩ := nullAdd_post s.g (satAdd z lp1 t.logp) hne
+      obtain ⟨v', e', le'⟩ := (innerFold_step (a := a) (lp1 := lp1) xs (innerStep z a lp1 s t)).mono _ _ _ e
       exact ⟨v', e', Int.le_trans le le'⟩
     · exact innerFold_done xs _ t ht hne
 
 theorem outerStep_done {cur : Fsg} {s : PassSt} (hs : Step cur s.g) (k : Key) :
-    Done cur k.1 k.2 (outerStep s k).g := by
+    Done z cur k.1 k.2 (outerStep z s k).g := by
   intro v1 h1 l2 hl2 hw hsrc hne
   obtain ⟨lp1, e1, le1⟩ := hs.mono _ _ _ h1
   obtain ⟨l2', m2, s2, d2, w2, p2⟩ := hs.dom l2 hl2
@@ -185,20 +197,20 @@ theorem outerStep_done {cur : Fsg} {s : PassSt} (hs : Step cur s.g) (k : Key) :
     simp [Link.isNull, w2, hw, s2, hsrc]
   obtain ⟨v, e, le⟩ := innerFold_done (a := k.1) (lp1 := lp1) _ s l2' hmem (d2 ▸ hne)
   rw [d2] at e
-  exact ⟨v, e, by have := Int.add_le_add le1 p2; exact Int.le_trans this le⟩
+  exact ⟨v, e, Int.le_trans (satAdd_mono le1 p2) le⟩
 
 theorem outerFold_done {cur : Fsg} : ∀ (ks : List Key) (s : PassSt), Step cur s.g →
-    ∀ k ∈ ks, Done cur k.1 k.2 (ks.foldl outerStep s).g
+    ∀ k ∈ ks, Done z cur k.1 k.2 (ks.foldl (outerStep z) s).g
   | [], _, _, k, hk => by cases hk
   | x :: xs, s, hs, k, hk => by
     rcases List.mem_cons.1 hk with rfl | hk
     · exact (outerStep_done hs k).mono (outerFold_step xs _).mono
     · exact outerFold_done xs _ (hs.trans (outerStep_step s x)) k hk
 
-theorem pass_step (g : Fsg) (nulls : List Key) : Step g (pass g nulls).g :=
+theorem pass_step (g : Fsg) (nulls : List Key) : Step g (pass z g nulls).g :=
   outerFold_step nulls { g, nulls, updated := false }
 
-theorem pass_done (g : Fsg) (nulls : List Key) : ∀ k ∈ nulls, Done g k.1 k.2 (pass g nulls).g :=
+theorem pass_done (g : Fsg) (nulls : List Key) : ∀ k ∈ nulls, Done z g k.1 k.2 (pass z g nulls).g :=
   outerFold_done nulls { g, nulls, updated := false } (Step.refl g)
 
 /-! ### simple null paths of the input grammar -/
@@ -326,7 +338,7 @@ theorem Covers.mono {g0 cur cur' : Fsg} {p : Nat} (h : Covers g0 p cur) (m : Loo
   exact ⟨v', e', Int.le_trans le le'⟩
 
 theorem covers_pass {g0 cur : Fsg} {p : Nat} {nulls : List Key} (hp : 1 ≤ p) (h : Covers g0 p cur)
-    (hk : KeysCover cur nulls) : Covers g0 (p + 1) (pass cur nulls).g := by
+    (hk : KeysCover cur nulls) : Covers g0 (p + 1) (pass z cur nulls).g := by
   intro a vs w c sp hlen
   cases sp with
   | one hm hw hne =>
@@ -339,8 +351,9 @@ theorem covers_pass {g0 cur : Fsg} {p : Nat} {nulls : List Key} (hp : 1 ≤ p) (
     have hkey := hk _ _ _ e1
     have hac : l.src ≠ l2.dst := by
       rw [d2]; intro e; exact hnin (e ▸ inner.last_mem)
-    obtain ⟨v, e, le⟩ := pass_done cur nulls _ hkey v1 e1 l2 m2 w2 s2 hac
+    obtain ⟨v, e, le⟩ := pass_done (z := z) cur nulls _ hkey v1 e1 l2 m2 w2 s2 hac
     rw [d2] at e
+    have := le_satAdd z v1 l2.logp
     exact ⟨v, e, by omega⟩
 
 /-! ### return codes, the `nulls` list, quiet passes -/
@@ -374,10 +387,10 @@ theorem nullAdd_code (g : Fsg) (a c : Nat) (lp : Int) :
       · exact .inr (.inr ⟨rfl, rfl⟩)
 
 theorem innerStep_keys {a : Nat} {lp1 : Int} {s : PassSt} (t : Link) (hk : KeysCover s.g s.nulls) :
-    KeysCover (innerStep a lp1 s t).g (innerStep a lp1 s t).nulls := by
+    KeysCover (innerStep z a lp1 s t).g (innerStep z a lp1 s t).nulls := by
   intro x y v h
   obtain ⟨l, m, w, hs, hd⟩ := nullLookup_isSome_iff.1 ⟨v, h⟩
-  have hold : (∃ v, nullLookup s.g x y = some v) → (x, y) ∈ (innerStep a lp1 s t).nulls := by
+  have hold : (∃ v, nullLookup s.g x y = some v) → (x, y) ∈ (innerStep z a lp1 s t).nulls := by
     rintro ⟨v', h'⟩
     have := hk _ _ _ h'
     unfold innerStep; simp only
@@ -389,35 +402,35 @@ theorem innerStep_keys {a : Nat} {lp1 : Int} {s : PassSt} (t : Link) (hk : KeysC
   · have hx : x = a := hs.symm.trans e1
     have hy : y = t.dst := hd.symm.trans e2
     subst hx hy
-    rcases nullAdd_code s.g x t.dst (lp1 + t.logp) with ⟨c1, _, _⟩ | ⟨_, old, ho⟩ | ⟨_, hg⟩
+    rcases nullAdd_code s.g x t.dst (satAdd z lp1 t.logp) with ⟨c1, _, _⟩ | ⟨_, old, ho⟩ | ⟨_, hg⟩
     · unfold innerStep; simp only
       rw [if_pos (by rw [c1]; decide)]
       exact List.mem_cons_self
     · exact hold ⟨old, ho⟩
     · apply hold
-      have : (innerStep x lp1 s t).g = s.g := hg
+      have : (innerStep z x lp1 s t).g = s.g := hg
       rw [this] at h
       exact ⟨v, h⟩
 
 theorem innerFold_keys {a : Nat} {lp1 : Int} : ∀ (ts : List Link) (s : PassSt), KeysCover s.g s.nulls →
-    KeysCover (ts.foldl (innerStep a lp1) s).g (ts.foldl (innerStep a lp1) s).nulls
+    KeysCover (ts.foldl (innerStep z a lp1) s).g (ts.foldl (innerStep z a lp1) s).nulls
   | [], _, h => h
   | t :: ts, _, h => innerFold_keys ts _ (innerStep_keys t h)
 
 theorem outerStep_keys (s : PassSt) (k : Key) (h : KeysCover s.g s.nulls) :
-    KeysCover (outerStep s k).g (outerStep s k).nulls := by
+    KeysCover (outerStep z s k).g (outerStep z s k).nulls := by
   unfold outerStep
   cases nullLookup s.g k.1 k.2 with
   | none => exact h
   | some lp1 => exact innerFold_keys _ _ h
 
 theorem outerFold_keys : ∀ (ks : List Key) (s : PassSt), KeysCover s.g s.nulls →
-    KeysCover (ks.foldl outerStep s).g (ks.foldl outerStep s).nulls
+    KeysCover (ks.foldl (outerStep z) s).g (ks.foldl (outerStep z) s).nulls
   | [], _, h => h
   | k :: ks, s, h => outerFold_keys ks _ (outerStep_keys s k h)
 
 theorem pass_keys {g : Fsg} {nulls : List Key} (h : KeysCover g nulls) :
-    KeysCover (pass g nulls).g (pass g nulls).nulls :=
+    KeysCover (pass z g nulls).g (pass z g nulls).nulls :=
   outerFold_keys nulls { g, nulls, updated := false } h
 
 theorem nullKeys_cover (g : Fsg) : KeysCover g (nullKeys g) := by
@@ -427,62 +440,66 @@ theorem nullKeys_cover (g : Fsg) : KeysCover g (nullKeys g) := by
   refine List.mem_map.2 ⟨l, List.mem_filter.2 ⟨m, by simp [Link.isNull, w]⟩, by rw [s, d]⟩
 
 /-- a pass that reports `updated = false` has not touched the grammar -/
-theorem innerStep_quiet {a : Nat} {lp1 : Int} {s : PassSt} (t : Link) (h : (innerStep a lp1 s t).updated = false) :
-    (innerStep a lp1 s t).g = s.g ∧ s.updated = false := by
+theorem innerStep_quiet {a : Nat} {lp1 : Int} {s : PassSt} (t : Link) (h : (innerStep z a lp1 s t).updated = false) :
+    (innerStep z a lp1 s t).g = s.g ∧ s.updated = false := by
   unfold innerStep at h ⊢
   simp only [Bool.or_eq_false_iff, decide_eq_false_iff_not, Int.not_le] at h
   refine ⟨?_, h.1⟩
-  rcases nullAdd_code s.g a t.dst (lp1 + t.logp) with ⟨c1, _, _⟩ | ⟨c0, _⟩ | ⟨_, hg⟩
+  rcases nullAdd_code s.g a t.dst (satAdd z lp1 t.logp) with ⟨c1, _, _⟩ | ⟨c0, _⟩ | ⟨_, hg⟩
   · omega
   · omega
   · exact hg
 
 theorem innerFold_quiet {a : Nat} {lp1 : Int} : ∀ (ts : List Link) (s : PassSt),
-    (ts.foldl (innerStep a lp1) s).updated = false → (ts.foldl (innerStep a lp1) s).g = s.g ∧ s.updated = false
+    (ts.foldl (innerStep z a lp1) s).updated = false → (ts.foldl (innerStep z a lp1) s).g = s.g ∧ s.updated = false
   | [], _, h => ⟨rfl, h⟩
   | t :: ts, s, h => by
     obtain ⟨e1, u1⟩ := innerFold_quiet ts _ h
     obtain ⟨e2, u2⟩ := innerStep_quiet t u1
     exact ⟨e1.trans e2, u2⟩
 
-theorem outerStep_quiet (s : PassSt) (k : Key) (h : (outerStep s k).updated = false) :
-    (outerStep s k).g = s.g ∧ s.updated = false := by
+theorem outerStep_quiet (s : PassSt) (k : Key) (h : (outerStep z s k).updated = false) :
+    (outerStep z s k).g = s.g ∧ s.updated = false := by
   unfold outerStep at h ⊢
   cases hl : nullLookup s.g k.1 k.2 with
   | none => rw [hl] at h; exact ⟨rfl, h⟩
   | some lp1 => rw [hl] at h; exact innerFold_quiet _ _ h
 
 theorem outerFold_quiet : ∀ (ks : List Key) (s : PassSt),
-    (ks.foldl outerStep s).updated = false → (ks.foldl outerStep s).g = s.g ∧ s.updated = false
+    (ks.foldl (outerStep z) s).updated = false → (ks.foldl (outerStep z) s).g = s.g ∧ s.updated = false
   | [], _, h => ⟨rfl, h⟩
   | k :: ks, s, h => by
     obtain ⟨e1, u1⟩ := outerFold_quiet ks _ h
     obtain ⟨e2, u2⟩ := outerStep_quiet s k u1
     exact ⟨e1.trans e2, u2⟩
 
-theorem pass_quiet {g : Fsg} {nulls : List Key} (h : (pass g nulls).updated = false) : (pass g nulls).g = g :=
+theorem pass_quiet {g : Fsg} {nulls : List Key} (h : (pass z g nulls).updated = false) : (pass z g nulls).g = g :=
   (outerFold_quiet nulls { g, nulls, updated := false } h).1
 
 /-! ### closed grammars -/
 
-/-- fixpoint of the closure loop: relaxing any two consecutive null links changes nothing -/
-def NullClosed (g : Fsg) : Prop := ∀ a b, Done g a b g
+/-- fixpoint of the closure loop with saturation point `z`: relaxing any two consecutive null
+links changes nothing -/
+def NullClosedZ (z : Int) (g : Fsg) : Prop := ∀ a b, Done z g a b g
+
+/-- closed for the grammar's own log-zero -/
+def NullClosed (g : Fsg) : Prop := NullClosedZ g.logZero g
 
 theorem closed_of_quiet {g : Fsg} {nulls : List Key} (hk : KeysCover g nulls)
-    (h : (pass g nulls).updated = false) : NullClosed g := by
+    (h : (pass z g nulls).updated = false) : NullClosedZ z g := by
   intro a b v1 h1
-  have := pass_done g nulls (a, b) (hk _ _ _ h1)
+  have := pass_done (z := z) g nulls (a, b) (hk _ _ _ h1)
   rw [pass_quiet h] at this
   exact this v1 h1
 
-theorem innerFold_closed {g : Fsg} (hc : NullClosed g) {a b : Nat} {lp1 : Int} (h1 : nullLookup g a b = some lp1)
+theorem innerFold_closed {g : Fsg} (hc : NullClosedZ z g) {a b : Nat} {lp1 : Int} (h1 : nullLookup g a b = some lp1)
     (nulls : List Key) : ∀ (ts : List Link), (∀ t ∈ ts, t ∈ g.links ∧ t.wid = none ∧ t.src = b) →
-    ts.foldl (innerStep a lp1) { g, nulls, updated := false } = { g, nulls, updated := false }
+    ts.foldl (innerStep z a lp1) { g, nulls, updated := false } = { g, nulls, updated := false }
   | [], _ => rfl
   | t :: ts, h => by
     have ht := h t List.mem_cons_self
-    have : innerStep a lp1 { g, nulls, updated := false } t = { g, nulls, updated := false } := by
-      have key : nullAdd g a t.dst (lp1 + t.logp) = (g, -1) := by
+    have : innerStep z a lp1 { g, nulls, updated := false } t = { g, nulls, updated := false } := by
+      have key : nullAdd g a t.dst (satAdd z lp1 t.logp) = (g, -1) := by
         unfold nullAdd
         by_cases hac : a = t.dst
         · rw [if_pos hac]
@@ -496,8 +513,8 @@ theorem innerFold_closed {g : Fsg} (hc : NullClosed g) {a b : Nat} {lp1 : Int} (
     rw [List.foldl_cons, this]
     exact innerFold_closed hc h1 nulls ts fun t' ht' => h t' (List.mem_cons_of_mem _ ht')
 
-theorem outerStep_closed {g : Fsg} (hc : NullClosed g) (nulls : List Key) (k : Key) :
-    outerStep { g, nulls, updated := false } k = { g, nulls, updated := false } := by
+theorem outerStep_closed {g : Fsg} (hc : NullClosedZ z g) (nulls : List Key) (k : Key) :
+    outerStep z { g, nulls, updated := false } k = { g, nulls, updated := false } := by
   unfold outerStep
   cases hl : nullLookup g k.1 k.2 with
   | none => rfl
@@ -510,55 +527,21 @@ theorem outerStep_closed {g : Fsg} (hc : NullClosed g) (nulls : List Key) (k : K
     · have := this.2; simp [Link.isNull, Option.isNone_iff_eq_none] at this; exact this.1
     · have := this.2; simp [Link.isNull] at this; exact this.2
 
-theorem pass_closed {g : Fsg} (hc : NullClosed g) (nulls : List Key) :
-    pass g nulls = { g, nulls, updated := false } := by
+theorem pass_closed {g : Fsg} (hc : NullClosedZ z g) (nulls : List Key) :
+    pass z g nulls = { g, nulls, updated := false } := by
   unfold pass
   generalize nulls = ks at *
-  suffices H : ∀ (xs : List Key), xs.foldl outerStep { g, nulls := ks, updated := false } = { g, nulls := ks, updated := false } from H ks
+  suffices H : ∀ (xs : List Key), xs.foldl (outerStep z) { g, nulls := ks, updated := false } = { g, nulls := ks, updated := false } from H ks
   intro xs
   induction xs with
   | nil => rfl
   | cons x xs ih => rw [List.foldl_cons, outerStep_closed hc, ih]
 
-theorem closureLoop_closed {g : Fsg} (hc : NullClosed g) (nulls : List Key) (fuel : Nat) :
-    closureLoop (fuel + 1) g nulls = (g, nulls, true) := by
+theorem closureLoop_closed {g : Fsg} (hc : NullClosedZ z g) (nulls : List Key) (fuel : Nat) :
+    closureLoop z (fuel + 1) g nulls = (g, nulls, true) := by
   simp [closureLoop, pass_closed hc]
 
-/-- full coverage (with the upper bound `Sim`) makes the grammar closed -/
-theorem closed_of_covers {g0 g : Fsg} (h0 : NullLe0 g0) {p : Nat} (hp : (nullLinks g0).length ≤ p)
-    (hc : Covers g0 p g) (hs : Sim g g0) : NullClosed g := by
-  intro a b v1 h1 l2 m2 w2 s2 hne
-  obtain ⟨l1, m1, w1, sr1, d1, p1⟩ := nullLookup_some h1
-  obtain ⟨x1, le1, r1⟩ := hs l1 m1
-  obtain ⟨x2, le2, r2⟩ := hs l2 m2
-  rw [w1] at r1; rw [w2] at r2
-  have r : Run g0 a ([] ++ []) (x1 + x2) l2.dst := by
-    refine Run.trans (q := b) ?_ ?_
-    · simpa [lab, sr1, d1] using r1
-    · simpa [lab, s2] using r2
-  obtain ⟨vs, w, sp, le⟩ := spath_of_run h0 r rfl hne
-  obtain ⟨v, e, le'⟩ := hc _ _ _ _ sp (Nat.le_trans sp.length_le hp)
-  exact ⟨v, e, by omega⟩
-
-/-! ### the loop -/
-
-theorem closureLoop_converges {g0 : Fsg} (h0 : NullLe0 g0) : ∀ (fuel : Nat) (g : Fsg) (nulls : List Key) (p : Nat),
-    1 ≤ p → Covers g0 p g → Sim g g0 → KeysCover g nulls → (nullLinks g0).length ≤ p + fuel →
-    (closureLoop (fuel + 1) g nulls).2.2 = true ∧ NullClosed (closureLoop (fuel + 1) g nulls).1
-  | 0, g, nulls, p, _, hc, hs, _, hm => by
-    have hcl := closed_of_covers h0 (by simpa using hm) hc hs
-    rw [closureLoop_closed hcl]
-    exact ⟨rfl, hcl⟩
-  | fuel + 1, g, nulls, p, hp, hc, hs, hk, hm => by
-    rw [closureLoop]
-    split
-    · refine closureLoop_converges h0 fuel _ _ (p + 1) (by omega) (covers_pass hp hc hk)
-        ((pass_ext g nulls).sim.trans hs) (pass_keys hk) (by omega)
-    · rename_i hq
-      have hq' : (pass g nulls).updated = false := by simpa using hq
-      have := closed_of_quiet hk hq'
-      rw [pass_quiet hq']
-      exact ⟨rfl, this⟩
+/-! ### well-formedness of null links, kept by every operation of the API -/
 
 /-- well-formedness of the null links, an invariant of the C representation: log-probabilities
 `≤ 0` (else `E_FATAL`), no self-loops (rejected by `fsg_model_null_trans_add`), one link per pair
@@ -567,6 +550,10 @@ structure NullWF (g : Fsg) : Prop where
   le0 : NullLe0 g
   noLoop : ∀ l ∈ g.links, l.wid = none → l.src ≠ l.dst
   uniq : (nullKeys g).Nodup
+
+/-- no null link is below log-zero (what `logmath_log` returns for probability zero is the lowest
+value the library produces) -/
+def NullGe (z : Int) (g : Fsg) : Prop := ∀ l ∈ g.links, l.wid = none → z ≤ l.logp
 
 theorem nullKeys_cons (l : Link) (ls : List Link) (g : Fsg) :
     nullKeys { g with links := l :: ls } =
@@ -614,20 +601,6 @@ theorem NullWF.nullUniq {g : Fsg} (h : NullWF g) : NullUniq g := by
   intro l hl hw
   exact nullUniq_of_nodup g.links g h.uniq l hl hw
 
-theorem closureRun_converges {g : Fsg} (h : NullWF g) :
-    (closureRun g).2.2 = true ∧ NullClosed (closure g) := by
-  unfold closure closureRun closureFuel
-  exact closureLoop_converges h.le0 _ g _ 1 (Nat.le_refl 1) (covers_one h.nullUniq) (Sim.refl g) (nullKeys_cover g) (by omega)
-
-theorem closure_of_closed {g : Fsg} (hc : NullClosed g) : closure g = g := by
-  unfold closure closureRun closureFuel
-  rw [closureLoop_closed hc]
-
-theorem closure_idem {g : Fsg} (h : NullWF g) : closure (closure g) = closure g :=
-  closure_of_closed (closureRun_converges h).2
-
-/-! ### the invariant `NullWF` is kept by every operation of the API -/
-
 theorem nullKeys_raiseFirst (p : Link → Bool) (lp : Int) : ∀ (ls : List Link) (g : Fsg),
     nullKeys { g with links := raiseFirst p lp ls } = nullKeys { g with links := ls }
   | [], _ => rfl
@@ -637,7 +610,7 @@ theorem nullKeys_raiseFirst (p : Link → Bool) (lp : Int) : ∀ (ls : List Link
     · rw [nullKeys_cons, nullKeys_cons]; rfl
     · rw [nullKeys_cons, nullKeys_cons, nullKeys_raiseFirst p lp ls g]
 
-theorem nullWF_init (name : String) (n s f : Nat) : NullWF (Fsg.init name n s f) :=
+theorem nullWF_init (name : String) (n s f : Nat) (z : Int) : NullWF (Fsg.init name n s f z) :=
   ⟨fun _ h => (by cases h), fun _ h => (by cases h), List.nodup_nil⟩
 
 theorem nullWF_nullAdd {g : Fsg} (h : NullWF g) (a c : Nat) {lp : Int} (hlp : lp ≤ 0) : NullWF (nullAdd g a c lp).1 := by
@@ -668,6 +641,12 @@ theorem nullWF_nullAdd {g : Fsg} (h : NullWF g) (a c : Nat) {lp : Int} (hlp : lp
       rw [this]; exact h.uniq
     · rw [hg]; exact h.uniq
 
+theorem nullGe_nullAdd {g : Fsg} (h : NullGe z g) (a c : Nat) {lp : Int} (hlp : z ≤ lp) : NullGe z (nullAdd g a c lp).1 := by
+  intro l hl hw
+  rcases mem_nullAdd hl with hl | ⟨_, _, _, e, _⟩
+  · exact h l hl hw
+  · omega
+
 theorem nullWF_transAdd {g : Fsg} (h : NullWF g) (a c : Nat) (lp : Int) (w : Nat) : NullWF (transAdd g a c lp w) := by
   refine ⟨fun l hl hw => ?_, fun l hl hw => ?_, ?_⟩
   · rcases mem_transAdd hl with hl | ⟨_, _, e, _⟩
@@ -683,41 +662,231 @@ theorem nullWF_transAdd {g : Fsg} (h : NullWF g) (a c : Nat) (lp : Int) (w : Nat
       · exact h.uniq
     · rw [nullKeys_cons]; simp [Link.isNull]; exact h.uniq
 
-theorem innerFold_wf {a : Nat} {lp1 : Int} (hlp : lp1 ≤ 0) : ∀ (ts : List Link) (s : PassSt), NullWF s.g →
-    (∀ t ∈ ts, t.logp ≤ 0) → NullWF (ts.foldl (innerStep a lp1) s).g
+theorem nullGe_transAdd {g : Fsg} (h : NullGe z g) (a c : Nat) (lp : Int) (w : Nat) : NullGe z (transAdd g a c lp w) := by
+  intro l hl hw
+  rcases mem_transAdd hl with hl | ⟨_, _, e, _⟩
+  · exact h l hl hw
+  · rw [hw] at e; cases e
+
+/-- invariant of the loop: well-formed, nothing below the saturation point (which is `≤ 0`) -/
+structure LoopWF (z : Int) (g : Fsg) : Prop where
+  wf : NullWF g
+  ge : NullGe z g
+
+theorem innerFold_wf {a : Nat} {lp1 : Int} (hz : z ≤ 0) (hlp : lp1 ≤ 0) : ∀ (ts : List Link) (s : PassSt), LoopWF z s.g →
+    (∀ t ∈ ts, t.logp ≤ 0) → LoopWF z (ts.foldl (innerStep z a lp1) s).g
   | [], _, h, _ => h
   | t :: ts, s, h, ht =>
-    innerFold_wf hlp ts _ (nullWF_nullAdd h a t.dst (by have := ht t List.mem_cons_self; omega))
+    innerFold_wf hz hlp ts _
+      ⟨nullWF_nullAdd h.wf a t.dst (satAdd_le0 hz hlp (ht t List.mem_cons_self)),
+       nullGe_nullAdd h.ge a t.dst (satAdd_ge z lp1 t.logp)⟩
       fun t' m => ht t' (List.mem_cons_of_mem _ m)
 
-theorem outerStep_wf (s : PassSt) (k : Key) (h : NullWF s.g) : NullWF (outerStep s k).g := by
+theorem outerStep_wf (hz : z ≤ 0) (s : PassSt) (k : Key) (h : LoopWF z s.g) : LoopWF z (outerStep z s k).g := by
   unfold outerStep
   cases hl : nullLookup s.g k.1 k.2 with
   | none => exact h
   | some lp1 =>
     obtain ⟨l, m, w, _, _, p⟩ := nullLookup_some hl
-    refine innerFold_wf (p ▸ h.le0 l m w) _ _ h fun t ht => ?_
+    refine innerFold_wf hz (p ▸ h.wf.le0 l m w) _ _ h fun t ht => ?_
     have := List.mem_filter.1 ht
-    exact h.le0 t this.1 (by have := this.2; simp [Link.isNull, Option.isNone_iff_eq_none] at this; exact this.1)
+    exact h.wf.le0 t this.1 (by have := this.2; simp [Link.isNull, Option.isNone_iff_eq_none] at this; exact this.1)
 
-theorem outerFold_wf : ∀ (ks : List Key) (s : PassSt), NullWF s.g → NullWF (ks.foldl outerStep s).g
+theorem outerFold_wf (hz : z ≤ 0) : ∀ (ks : List Key) (s : PassSt), LoopWF z s.g → LoopWF z (ks.foldl (outerStep z) s).g
   | [], _, h => h
-  | k :: ks, s, h => outerFold_wf ks _ (outerStep_wf s k h)
+  | k :: ks, s, h => outerFold_wf hz ks _ (outerStep_wf hz s k h)
 
-theorem closureLoop_wf : ∀ (fuel : Nat) (g : Fsg) (nulls : List Key), NullWF g → NullWF (closureLoop fuel g nulls).1
+theorem pass_wf (hz : z ≤ 0) {g : Fsg} (nulls : List Key) (h : LoopWF z g) : LoopWF z (pass z g nulls).g :=
+  outerFold_wf hz nulls _ h
+
+theorem closureLoop_wf (hz : z ≤ 0) : ∀ (fuel : Nat) (g : Fsg) (nulls : List Key), LoopWF z g → LoopWF z (closureLoop z fuel g nulls).1
   | 0, _, _, h => h
   | fuel + 1, g, nulls, h => by
     rw [closureLoop]
-    have hp : NullWF (pass g nulls).g := outerFold_wf nulls _ h
+    have hp := pass_wf hz nulls h
     split
-    · exact closureLoop_wf fuel _ _ hp
+    · exact closureLoop_wf hz fuel _ _ hp
     · exact hp
 
-theorem nullWF_closure {g : Fsg} (h : NullWF g) : NullWF (closure g) := closureLoop_wf _ g _ h
+/-! ### upper bound: every null link is a path of the input, or sits at the saturation point -/
 
-/-! ### the closed grammar is determined by the input: all-pairs best null path -/
+/-- every link of `g'` is matched by a path of `g` that is at least as probable — or it is a
+null link at (or below) the saturation point `z` -/
+def SimZ (z : Int) (g' g : Fsg) : Prop :=
+  ∀ l' ∈ g'.links, ∃ v, Run g l'.src (lab l'.wid) v l'.dst ∧ (l'.logp ≤ v ∨ (l'.wid = none ∧ l'.logp ≤ z))
 
-theorem covers_of_closed {g0 g : Fsg} (hc : NullClosed g) (h1 : Covers g0 1 g) : ∀ p, Covers g0 p g := by
+theorem SimZ.refl (z : Int) (g : Fsg) : SimZ z g g := fun l h => ⟨l.logp, Run.single h, .inl (Int.le_refl _)⟩
+
+/-- the candidate computed from two consecutive null links is again bounded that way -/
+theorem simZ_pair {g g0 : Fsg} (hs : SimZ z g g0) (h0 : NullLe0 g) {l1 l2 : Link} (m1 : l1 ∈ g.links)
+    (w1 : l1.wid = none) (m2 : l2 ∈ g.links) (w2 : l2.wid = none) (hd : l1.dst = l2.src) :
+    ∃ v, Run g0 l1.src [] v l2.dst ∧ (satAdd z l1.logp l2.logp ≤ v ∨ satAdd z l1.logp l2.logp ≤ z) := by
+  obtain ⟨x1, r1, b1⟩ := hs l1 m1
+  obtain ⟨x2, r2, b2⟩ := hs l2 m2
+  rw [w1] at r1; rw [w2] at r2
+  have r : Run g0 l1.src ([] ++ []) (x1 + x2) l2.dst := Run.trans (q := l1.dst) (by simpa [lab] using r1) (by rw [hd]; simpa [lab] using r2)
+  refine ⟨x1 + x2, r, ?_⟩
+  have p1 := h0 l1 m1 w1
+  have p2 := h0 l2 m2 w2
+  unfold satAdd
+  split
+  · exact .inr (Int.le_refl _)
+  · rcases b1 with b1 | ⟨_, b1⟩
+    · rcases b2 with b2 | ⟨_, b2⟩
+      · exact .inl (by omega)
+      · exact .inr (by omega)
+    · exact .inr (by omega)
+
+theorem nullAdd_simZ {g g0 : Fsg} (hs : SimZ z g g0) {a c : Nat} {lp : Int}
+    (h : ∃ v, Run g0 a [] v c ∧ (lp ≤ v ∨ lp ≤ z)) : SimZ z (nullAdd g a c lp).1 g0 := by
+  intro x hx
+  rcases mem_nullAdd hx with hx | ⟨rfl, rfl, hw, hl, _⟩
+  · exact hs x hx
+  · obtain ⟨v, r, b⟩ := h
+    refine ⟨v, by rw [hw]; exact r, ?_⟩
+    rcases b with b | b
+    · exact .inl (hl ▸ b)
+    · exact .inr ⟨hw, hl ▸ b⟩
+
+theorem innerFold_simZ {g0 : Fsg} {a : Nat} {lp1 : Int} : ∀ (ts : List Link) (s : PassSt), SimZ z s.g g0 →
+    (∀ t ∈ ts, ∃ v, Run g0 a [] v t.dst ∧ (satAdd z lp1 t.logp ≤ v ∨ satAdd z lp1 t.logp ≤ z)) →
+    SimZ z (ts.foldl (innerStep z a lp1) s).g g0
+  | [], _, h, _ => h
+  | t :: ts, s, h, hw =>
+    innerFold_simZ ts _ (nullAdd_simZ h (hw t List.mem_cons_self)) fun t' m => hw t' (List.mem_cons_of_mem _ m)
+
+theorem outerStep_simZ {g0 : Fsg} (s : PassSt) (k : Key) (hwf : NullWF s.g) (h : SimZ z s.g g0) :
+    SimZ z (outerStep z s k).g g0 := by
+  unfold outerStep
+  cases hl : nullLookup s.g k.1 k.2 with
+  | none => exact h
+  | some lp1 =>
+    simp only
+    obtain ⟨l1, m1, w1, s1, d1, p1⟩ := nullLookup_some hl
+    refine innerFold_simZ _ _ h fun t ht => ?_
+    have hm := List.mem_filter.1 ht
+    have hw2 : t.wid = none := by
+      have := hm.2; simp [Link.isNull, Option.isNone_iff_eq_none] at this; exact this.1
+    have hs2 : t.src = k.2 := by
+      have := hm.2; simp [Link.isNull] at this; exact this.2
+    have := simZ_pair h hwf.le0 m1 w1 hm.1 hw2 (d1.trans hs2.symm)
+    rw [s1, p1] at this
+    exact this
+
+theorem pass_simZ (hz : z ≤ 0) {g0 g : Fsg} (nulls : List Key) (hwf : LoopWF z g) (h : SimZ z g g0) :
+    SimZ z (pass z g nulls).g g0 := by
+  unfold pass
+  suffices H : ∀ (ks : List Key) (s : PassSt), LoopWF z s.g → SimZ z s.g g0 → SimZ z (ks.foldl (outerStep z) s).g g0 from
+    H nulls _ hwf h
+  intro ks
+  induction ks with
+  | nil => intro _ _ h; exact h
+  | cons k ks ih => intro s hw hs; exact ih _ (outerStep_wf hz s k hw) (outerStep_simZ s k hw.wf hs)
+
+/-- full coverage makes the grammar closed -/
+theorem closed_of_covers {g0 g : Fsg} (h0 : NullLe0 g0) {p : Nat} (hp : (nullLinks g0).length ≤ p)
+    (hc : Covers g0 p g) (hs : SimZ z g g0) (hwf : LoopWF z g) : NullClosedZ z g := by
+  intro a b v1 h1 l2 m2 w2 s2 hne
+  obtain ⟨l1, m1, w1, sr1, d1, p1⟩ := nullLookup_some h1
+  obtain ⟨x, r, bx⟩ := simZ_pair hs hwf.wf.le0 m1 w1 m2 w2 (d1.trans s2.symm)
+  rw [sr1] at r
+  rw [p1] at bx
+  obtain ⟨vs, w, sp, le⟩ := spath_of_run h0 r rfl hne
+  obtain ⟨v, e, le'⟩ := hc _ _ _ _ sp (Nat.le_trans sp.length_le hp)
+  refine ⟨v, e, ?_⟩
+  rcases bx with bx | bx
+  · omega
+  · obtain ⟨l3, m3, w3, _, _, p3⟩ := nullLookup_some e
+    have := hwf.ge l3 m3 w3
+    omega
+
+/-! ### the loop -/
+
+theorem closureLoop_converges {g0 : Fsg} (hz : z ≤ 0) (h0 : NullLe0 g0) : ∀ (fuel : Nat) (g : Fsg) (nulls : List Key) (p : Nat),
+    1 ≤ p → Covers g0 p g → SimZ z g g0 → LoopWF z g → KeysCover g nulls → (nullLinks g0).length ≤ p + fuel →
+    (closureLoop z (fuel + 1) g nulls).2.2 = true ∧ NullClosedZ z (closureLoop z (fuel + 1) g nulls).1 ∧
+    SimZ z (closureLoop z (fuel + 1) g nulls).1 g0
+  | 0, g, nulls, p, _, hc, hs, hwf, _, hm => by
+    have hcl := closed_of_covers h0 (by simpa using hm) hc hs hwf
+    rw [closureLoop_closed hcl]
+    exact ⟨rfl, hcl, hs⟩
+  | fuel + 1, g, nulls, p, hp, hc, hs, hwf, hk, hm => by
+    rw [closureLoop]
+    split
+    · refine closureLoop_converges hz h0 fuel _ _ (p + 1) (by omega) (covers_pass hp hc hk)
+        (pass_simZ hz nulls hwf hs) (pass_wf hz nulls hwf) (pass_keys hk) (by omega)
+    · rename_i hq
+      have hq' : (pass z g nulls).updated = false := by simpa using hq
+      have := closed_of_quiet hk hq'
+      rw [pass_quiet hq']
+      exact ⟨rfl, this, hs⟩
+
+/-- the hypotheses of the closure theorems: well-formed null links, none below the grammar's
+log-zero, which is not positive -/
+structure ClosureWF (g : Fsg) : Prop where
+  wf : NullWF g
+  ge : NullGe g.logZero g
+  zero : g.logZero ≤ 0
+
+theorem ClosureWF.loop {g : Fsg} (h : ClosureWF g) : LoopWF g.logZero g := ⟨h.wf, h.ge⟩
+
+theorem closureRun_converges {g : Fsg} (h : ClosureWF g) :
+    (closureRun g).2.2 = true ∧ NullClosedZ g.logZero (closure g) ∧ SimZ g.logZero (closure g) g := by
+  unfold closure closureRun closureFuel
+  exact closureLoop_converges h.zero h.wf.le0 _ g _ 1 (Nat.le_refl 1) (covers_one h.wf.nullUniq) (SimZ.refl _ g) h.loop
+    (nullKeys_cover g) (by omega)
+
+theorem closureLoop_logZero : ∀ (fuel : Nat) (g : Fsg) (nulls : List Key), (closureLoop z fuel g nulls).1.logZero = g.logZero := by
+  have hn : ∀ (g : Fsg) a c lp, (nullAdd g a c lp).1.logZero = g.logZero := fun g a c lp => (nullAdd_start g a c lp).2.2.2.2.2.2.2
+  have hi : ∀ (a : Nat) (lp1 : Int) (ts : List Link) (s : PassSt), (ts.foldl (innerStep z a lp1) s).g.logZero = s.g.logZero := by
+    intro a lp1 ts
+    induction ts with
+    | nil => intro _; rfl
+    | cons t ts ih => intro s; rw [List.foldl_cons, ih]; exact hn _ _ _ _
+  have ho : ∀ (ks : List Key) (s : PassSt), (ks.foldl (outerStep z) s).g.logZero = s.g.logZero := by
+    intro ks
+    induction ks with
+    | nil => intro _; rfl
+    | cons k ks ih =>
+      intro s
+      rw [List.foldl_cons, ih]
+      unfold outerStep
+      cases nullLookup s.g k.1 k.2 with
+      | none => rfl
+      | some lp1 => exact hi _ _ _ _
+  intro fuel
+  induction fuel with
+  | zero => intro _ _; rfl
+  | succ n ih =>
+    intro g nulls
+    rw [closureLoop]
+    have hp : (pass z g nulls).g.logZero = g.logZero := ho nulls _
+    split
+    · rw [ih, hp]
+    · exact hp
+
+theorem closure_logZero (g : Fsg) : (closure g).logZero = g.logZero := closureLoop_logZero _ g _
+
+theorem closure_closed {g : Fsg} (h : ClosureWF g) : NullClosed (closure g) := by
+  unfold NullClosed; rw [closure_logZero]; exact (closureRun_converges h).2.1
+
+theorem closure_of_closed {g : Fsg} (hc : NullClosed g) : closure g = g := by
+  unfold closure closureRun closureFuel
+  rw [closureLoop_closed hc]
+
+theorem closure_idem {g : Fsg} (h : ClosureWF g) : closure (closure g) = closure g :=
+  closure_of_closed (closure_closed h)
+
+theorem closureWF_closure {g : Fsg} (h : ClosureWF g) : ClosureWF (closure g) := by
+  have := closureLoop_wf h.zero (closureFuel g) g (nullKeys g) h.loop
+  have hz := closure_logZero g
+  exact ⟨this.wf, by rw [hz]; exact this.ge, by rw [hz]; exact h.zero⟩
+
+theorem nullWF_closure {g : Fsg} (h : ClosureWF g) : NullWF (closure g) := (closureWF_closure h).wf
+
+/-! ### the closed grammar is determined by the input: all-pairs best null path, floored at log-zero -/
+
+theorem covers_of_closed {g0 g : Fsg} (hc : NullClosedZ z g) (h1 : Covers g0 1 g) : ∀ p, Covers g0 p g := by
   intro p a vs w c sp hlen
   clear hlen
   induction sp with
@@ -730,13 +899,32 @@ theorem covers_of_closed {g0 g : Fsg} (hc : NullClosed g) (h1 : Covers g0 1 g) :
       rw [d2]; intro e; exact hnin (e ▸ inner.last_mem)
     obtain ⟨v, e, le⟩ := hc _ _ v1 e1 l2 m2 w2 s2 hac
     rw [d2] at e
+    have := le_satAdd z v1 l2.logp
     exact ⟨v, e, by omega⟩
 
 /-- `v` is the best weight of a null path from `a` to `c` in `g` -/
 def IsBestNull (g : Fsg) (a c : Nat) (v : Int) : Prop :=
   Run g a [] v c ∧ ∀ v', Run g a [] v' c → v' ≤ v
 
-theorem closureLoop_step : ∀ (fuel : Nat) (g : Fsg) (nulls : List Key), Step g (closureLoop fuel g nulls).1
+/-- `v` is the best weight of a null path from `a` to `c` in `g`, floored at `z`: there is a null
+path, none is better than `v`, `v ≥ z`, and when `v > z` a path of weight `v` exists -/
+def IsSatBestNull (z : Int) (g : Fsg) (a c : Nat) (v : Int) : Prop :=
+  (∃ x, Run g a [] x c) ∧ (∀ x, Run g a [] x c → x ≤ v) ∧ z ≤ v ∧ (z < v → Run g a [] v c)
+
+theorem IsSatBestNull.unique {g : Fsg} {a c : Nat} {v v' : Int} (h : IsSatBestNull z g a c v)
+    (h' : IsSatBestNull z g a c v') : v = v' := by
+  obtain ⟨_, u, ge, att⟩ := h
+  obtain ⟨_, u', ge', att'⟩ := h'
+  by_cases h1 : z < v
+  · have := u' v (att h1)
+    by_cases h2 : z < v'
+    · have := u v' (att' h2); omega
+    · omega
+  · by_cases h2 : z < v'
+    · have := u v' (att' h2); omega
+    · omega
+
+theorem closureLoop_step : ∀ (fuel : Nat) (g : Fsg) (nulls : List Key), Step g (closureLoop z fuel g nulls).1
   | 0, g, _ => Step.refl g
   | fuel + 1, g, nulls => by
     rw [closureLoop]
@@ -744,40 +932,157 @@ theorem closureLoop_step : ∀ (fuel : Nat) (g : Fsg) (nulls : List Key), Step g
     · exact (pass_step g nulls).trans (closureLoop_step fuel _ _)
     · exact pass_step g nulls
 
-theorem closure_lookup_iff {g : Fsg} (h : NullWF g) (a c : Nat) (v : Int) :
-    nullLookup (closure g) a c = some v ↔ a ≠ c ∧ IsBestNull g a c v := by
-  have hcl := (closureRun_converges h).2
-  have hsim := (closure_ext g).sim
-  have hwf := nullWF_closure h
+theorem closure_lookup_iff {g : Fsg} (h : ClosureWF g) (a c : Nat) (v : Int) :
+    nullLookup (closure g) a c = some v ↔ a ≠ c ∧ IsSatBestNull g.logZero g a c v := by
+  obtain ⟨_, hcl, hsim⟩ := closureRun_converges h
+  have hwf := closureWF_closure h
   have hstep : Step g (closure g) := closureLoop_step _ g _
   have hcov : ∀ p, Covers g p (closure g) :=
-    covers_of_closed hcl ((covers_one h.nullUniq).mono hstep.mono)
-  -- every null path of `g` between different states is dominated by the link of the closure
+    covers_of_closed hcl ((covers_one h.wf.nullUniq).mono hstep.mono)
   have upper : ∀ {a c : Nat} {x : Int}, a ≠ c → Run g a [] x c → ∃ v', nullLookup (closure g) a c = some v' ∧ x ≤ v' := by
     intro a c x hne r
-    obtain ⟨vs, w, sp, le⟩ := spath_of_run h.le0 r rfl hne
+    obtain ⟨vs, w, sp, le⟩ := spath_of_run h.wf.le0 r rfl hne
     obtain ⟨v', e, le'⟩ := hcov vs.length _ _ _ _ sp (Nat.le_refl _)
     exact ⟨v', e, by omega⟩
-  constructor
-  · intro hl
+  have fwd : ∀ {v : Int}, nullLookup (closure g) a c = some v → a ≠ c ∧ IsSatBestNull g.logZero g a c v := by
+    intro v hl
     obtain ⟨l, m, w, s, d, p⟩ := nullLookup_some hl
-    have hne : a ≠ c := by rw [← s, ← d]; exact hwf.noLoop l m w
-    obtain ⟨x, lex, r⟩ := hsim l m
+    have hne : a ≠ c := by rw [← s, ← d]; exact hwf.wf.noLoop l m w
+    obtain ⟨x, r, bx⟩ := hsim l m
     rw [w, s, d] at r
     have r' : Run g a [] x c := r
     have hmax : ∀ v', Run g a [] v' c → v' ≤ v := by
       intro v' r2
       obtain ⟨v'', e, le⟩ := upper hne r2
       rw [hl] at e; cases e; exact le
-    have : x = v := Int.le_antisymm (hmax x r') (p ▸ lex)
-    exact ⟨hne, this ▸ r', hmax⟩
-  · rintro ⟨hne, r, hmax⟩
-    obtain ⟨v', e, le⟩ := upper hne r
-    obtain ⟨l, m, w, s, d, p⟩ := nullLookup_some e
-    obtain ⟨x, lex, r2⟩ := hsim l m
-    rw [w, s, d] at r2
-    have : x ≤ v := hmax x r2
-    have : v' = v := by omega
+    have hge : g.logZero ≤ v := by
+      have := hwf.ge l m w; rw [closure_logZero] at this; omega
+    refine ⟨hne, ⟨x, r'⟩, hmax, hge, fun hlt => ?_⟩
+    rcases bx with bx | ⟨_, bx⟩
+    · have := hmax x r'
+      have : x = v := by omega
+      exact this ▸ r'
+    · omega
+  constructor
+  · exact fwd
+  · rintro ⟨hne, hs⟩
+    obtain ⟨x, r⟩ := hs.1
+    obtain ⟨v', e, _⟩ := upper hne r
+    have := (fwd e).2.unique hs
     rw [← this]; exact e
+
+/-! ### when nothing saturates, the closure preserves best probabilities exactly -/
+
+theorem SPath.run {g a vs w c} (h : SPath g a vs w c) : Run g a [] w c := by
+  induction h with
+  | one hm hw _ => have := Run.eps hm hw (Run.nil (g := g)); simpa using this
+  | cons hm hw _ _ _ ih => exact Run.eps hm hw ih
+
+/-- no simple null path of `g` is below the saturation point: the closure never saturates a link
+that matters -/
+def NoSat (z : Int) (g : Fsg) : Prop := ∀ a vs w c, SPath g a vs w c → z ≤ w
+
+theorem sim_of_simZ {g' g : Fsg} (h0 : NullLe0 g) (hn : NoSat z g)
+    (hl : ∀ l ∈ g'.links, l.wid = none → l.src ≠ l.dst) (hs : SimZ z g' g) : Sim g' g := by
+  intro l hm
+  obtain ⟨x, r, b⟩ := hs l hm
+  rcases b with b | ⟨w, b⟩
+  · exact ⟨x, b, r⟩
+  · rw [w] at r
+    obtain ⟨vs, y, sp, _⟩ := spath_of_run h0 r rfl (hl l hm w)
+    have := hn _ _ _ _ sp
+    exact ⟨y, by omega, by rw [w]; exact sp.run⟩
+
+/-- under `NoSat` the closed grammar accepts the same sentences with the same best log-probability -/
+theorem closure_ext {g : Fsg} (h : ClosureWF g) (hn : NoSat g.logZero g) : Ext g (closure g) := by
+  have l := closure_lext g
+  exact ⟨l.dom, sim_of_simZ h.wf.le0 hn (nullWF_closure h).noLoop (closureRun_converges h).2.2, l.start, l.final⟩
+
+/-- under `NoSat` the floor plays no role: the null links of the closure are the best null paths -/
+theorem closure_lookup_iff_noSat {g : Fsg} (h : ClosureWF g) (hn : NoSat g.logZero g) (a c : Nat) (v : Int) :
+    nullLookup (closure g) a c = some v ↔ a ≠ c ∧ IsBestNull g a c v := by
+  rw [closure_lookup_iff h]
+  constructor
+  · rintro ⟨hne, ⟨x, r⟩, hmax, hge, hatt⟩
+    refine ⟨hne, ?_, hmax⟩
+    by_cases hlt : g.logZero < v
+    · exact hatt hlt
+    · obtain ⟨vs, y, sp, _⟩ := spath_of_run h.wf.le0 r rfl hne
+      have h1 := hn _ _ _ _ sp
+      have h2 := hmax y sp.run
+      have : y = v := by omega
+      exact this ▸ sp.run
+  · rintro ⟨hne, r, hmax⟩
+    refine ⟨hne, ⟨v, r⟩, hmax, ?_, fun _ => r⟩
+    obtain ⟨vs, y, sp, _⟩ := spath_of_run h.wf.le0 r rfl hne
+    have h1 := hn _ _ _ _ sp
+    have h2 := hmax y sp.run
+    omega
+
+/-! ### a decidable sufficient condition for `NoSat`: the null log-probabilities sum to no less than `z` -/
+
+theorem sum_erase_link (f : Link → Int) : ∀ (L : List Link) (x : Link), x ∈ L →
+    (L.map f).sum = f x + ((L.erase x).map f).sum
+  | [], _, h => by cases h
+  | y :: L, x, h => by
+    by_cases hyx : y = x
+    · subst hyx; simp
+    · have hx : x ∈ L := by
+        rcases List.mem_cons.1 h with h | h
+        · exact absurd h.symm hyx
+        · exact h
+      have hb : (y == x) = false := by simpa using hyx
+      rw [List.erase_cons, hb]
+      simp only [Bool.false_eq_true, if_false, List.map_cons, List.sum_cons]
+      rw [sum_erase_link f L x hx]; omega
+
+theorem sum_nonpos_link (f : Link → Int) : ∀ (L : List Link), (∀ x ∈ L, f x ≤ 0) → (L.map f).sum ≤ 0
+  | [], _ => by simp
+  | y :: L, h0 => by
+    simp only [List.map_cons, List.sum_cons]
+    have h1 := h0 y List.mem_cons_self
+    have h2 := sum_nonpos_link f L (fun x hx => h0 x (List.mem_cons_of_mem _ hx))
+    omega
+
+theorem sum_le_of_nodup_subset (f : Link → Int) : ∀ (ls L : List Link), ls.Nodup → (∀ x ∈ ls, x ∈ L) →
+    (∀ x ∈ L, f x ≤ 0) → (L.map f).sum ≤ (ls.map f).sum
+  | [], L, _, _, h0 => by
+    simp only [List.map_nil, List.sum_nil]
+    exact sum_nonpos_link f L h0
+  | x :: xs, L, hnd, hsub, h0 => by
+    have hx := hsub x List.mem_cons_self
+    have hnd' := List.nodup_cons.1 hnd
+    rw [sum_erase_link f L x hx]
+    simp only [List.map_cons, List.sum_cons]
+    have := sum_le_of_nodup_subset f xs (L.erase x) hnd'.2
+      (fun y hy => (List.mem_erase_of_ne (fun e : y = x => hnd'.1 (e ▸ hy))).2 (hsub y (List.mem_cons_of_mem _ hy)))
+      (fun y hy => h0 y (List.mem_of_mem_erase hy))
+    omega
+
+theorem SPath.links {g a vs w c} (h : SPath g a vs w c) :
+    ∃ ls : List Link, (∀ x ∈ ls, x ∈ nullLinks g) ∧ ls.map (·.dst) = vs ∧ w = (ls.map (·.logp)).sum := by
+  induction h with
+  | @one l hm hw _ =>
+    exact ⟨[l], fun x hx => by
+      have : x = l := by simpa using hx
+      subst this; exact List.mem_filter.2 ⟨hm, by simp [Link.isNull, hw]⟩, rfl, by simp⟩
+  | @cons l vs w c hm hw _ _ _ ih =>
+    obtain ⟨ls, hsub, hd, hs⟩ := ih
+    refine ⟨l :: ls, fun x hx => ?_, by simp [hd], by simp [hs]⟩
+    rcases List.mem_cons.1 hx with rfl | hx
+    · exact List.mem_filter.2 ⟨hm, by simp [Link.isNull, hw]⟩
+    · exact hsub x hx
+
+/-- if all null log-probabilities together do not go below `z`, no simple null path does -/
+theorem noSat_of_total {g : Fsg} (h0 : NullLe0 g) (hz : z ≤ ((nullLinks g).map (·.logp)).sum) : NoSat z g := by
+  intro a vs w c sp
+  obtain ⟨ls, hsub, hd, hs⟩ := sp.links
+  have hnd : ls.Nodup := by
+    have : (ls.map (·.dst)).Nodup := hd ▸ sp.nodup.1
+    exact List.Pairwise.of_map (·.dst) (fun a b hab e => hab (e ▸ rfl)) this
+  have := sum_le_of_nodup_subset (·.logp) ls (nullLinks g) hnd hsub (fun x hx => by
+    have := List.mem_filter.1 hx
+    exact h0 x this.1 (by simpa [Link.isNull, Option.isNone_iff_eq_none] using this.2))
+  omega
 
 end SSVerif.Fsg
